@@ -70,8 +70,11 @@ def replay_box(arg):
         rep["impl"] = dict(cd=cd, iou2=iou2, iou3=iou3, pd=pd)
         if abs(cd * cd - cd2) > 1e-9 or abs(cd_s - cd) > 1e-12:
             mism.append(("center-distance", "centre distance %r, specification sqrt(%r)" % (cd, cd2), rep))
-        # GEOS overlay is not robust when two footprints have overlapping collinear edges at a non-axis-aligned rotation
-        degenerate = ":shared-collinear-edge-under-rotation" if (rot != 0 and shares_collinear_edge(a, b)) else ""
+        # GEOS overlay is not robust when two footprints have overlapping collinear edges and their corners are not exactly representable:
+        # under a 3-4-5 rotation, or (found by the thorough tier) under the boxes' own yaw of a quarter/half turn, where sin(pi) = 1.2e-16
+        # perturbs the corners (F11).  With yaw 0 and no common rotation the corners are exact and every mismatch is a plain violation.
+        inexact = rot != 0 or a["q"] != 0 or b["q"] != 0
+        degenerate = ":shared-collinear-edge-under-rotation" if (inexact and shares_collinear_edge(a, b)) else ""
         if abs(iou2 - i2) > 1e-9 or abs(iou2_s - i2) > 1e-9:
             mism.append(("iou2d" + degenerate, "BEV IoU %r / swapped %r, specification %s" % (iou2, iou2_s, out["iou2"]), rep))
         if abs(iou3 - i3) > 1e-9 or abs(iou3_s - i3) > 1e-9:
